@@ -21,26 +21,65 @@ CANDIDATE_STANDIN = """
 """
 
 
+CHECKED_SPEC = """
+        ensures
+            r is Some ==> valid_iri_ref(r->Some_0.view()) && resolves_to(self.base.view(), r->Some_0.view(), iri@),
+"""
+
+PROTECT_STANDIN = """
+    // the "./" protection of a first segment containing ':': NOTHING is assumed about its result
+    #[verifier::external_body]
+    fn protect<'a>(candidate: &CowStr<'_>) -> (r: Option<CowStr<'a>>)
+    { unimplemented!() }
+"""
+
+
+def _guard(fn, canary, what):
+    fn, n = rsx.replace_code(fn, r"(\w+)\.as_str\(\) == (\w+)", r"str_eq(\1.as_str(), \2)")
+    if n < 1:
+        raise rsx.LostAnchor("no string comparison guard found in " + what)
+    if canary == "no_guard":
+        # vacuity canary: without the comparison the postcondition must NOT be provable
+        fn, k = re.subn(r"Ok\((\w+)\) if str_eq\(\1\.as_str\(\), \w+\)", r"Ok(\1)", fn)
+        if k != 1:
+            raise rsx.LostAnchor("canary: guard pattern not found in " + what)
+    fn = rsx.insert_before_line(fn, re.compile(r"^\s*match self\.base\.resolve\("), "        broadcast use axiom_resolution_is_functional;", expect_count=1)
+    return fn, n
+
+
 def build(repo, canary=None):
     src = open(os.path.join(repo, SRC)).read()
-    fn = rsx.cut_fn(src, "relativize", within=r"impl<T: Deref<Target = str>> Relativizer<T>")
+    within = r"impl<T: Deref<Target = str>> Relativizer<T>"
+    fn = rsx.cut_fn(src, "relativize", within=within)
     info = {"cuts": {SRC + "::Relativizer::relativize": rsx.sha(fn)}, "rewrites": {}, "assumptions": []}
     # R0: types replaced by their stand-ins
     fn, n = rsx.replace_code(fn, r"pub fn relativize<'a>\(&self, iri: Iri<&'a str>\) -> Option<IriRef<Cow<'a, str>>>",
                              "pub fn relativize<'a>(&self, iri: Iri<'a>) -> Option<IriRef<'a>>", expect=1)
     info["rewrites"]["R0 signature types -> stand-ins (Iri<&str>, IriRef<Cow<str>>)"] = n
-    fn, n = rsx.replace_code(fn, r"(\w+)\.as_str\(\) == (\w+)", r"str_eq(\1.as_str(), \2)")
-    info["rewrites"]["R0 `a == b` on &str -> str_eq(a, b)"] = n
-    if n < 1:
-        raise rsx.LostAnchor("no string comparison guard found in relativize")
-    if canary == "no_guard":
-        # vacuity canary: without the comparison the postcondition must NOT be provable
-        fn = re.sub(r"Ok\(abs\) if str_eq\(abs\.as_str\(\), iri\)", "Ok(abs)", fn)
-    fn = rsx.add_spec(fn, SPEC)
-    fn = rsx.insert_before_line(fn, re.compile(r"^\s*match self\.base\.resolve\("), "        broadcast use axiom_resolution_is_functional;", expect_count=1)
+    extra, expect = "", ["Relativizer::relativize"]
+    if re.search(r"self\.checked\(", fn):
+        # the guard lives in a helper `checked(candidate, iri)`: it carries the contract, relativize is verified
+        # against it (modularly), and `protect` is an arbitrary heuristic like `candidate`
+        chk = rsx.cut_fn(src, "checked", within=within)
+        info["cuts"][SRC + "::Relativizer::checked"] = rsx.sha(chk)
+        chk, n = rsx.replace_code(chk, r"fn checked<'a>\(&self, candidate: Cow<'a, str>, iri: &str\) -> Option<IriRef<Cow<'a, str>>>",
+                                  "fn checked<'a>(&self, candidate: CowStr<'a>, iri: &str) -> Option<IriRef<'a>>", expect=1)
+        info["rewrites"]["R0 signature types of checked -> stand-ins"] = n
+        chk, n = _guard(chk, canary, "checked")
+        info["rewrites"]["R0 `a == b` on &str -> str_eq(a, b)"] = n
+        chk = rsx.add_spec(chk, CHECKED_SPEC)
+        fn = rsx.add_spec(fn, SPEC)
+        extra = PROTECT_STANDIN + "\n" + chk + "\n"
+        expect.append("Relativizer::checked")
+        if not re.search(r"\bSelf::protect\(&candidate\)", fn) and re.search(r"\bprotect\b", fn):
+            raise rsx.LostAnchor("relativize: unexpected use of protect")
+    else:
+        fn, n = _guard(fn, canary, "relativize")
+        info["rewrites"]["R0 `a == b` on &str -> str_eq(a, b)"] = n
+        fn = rsx.add_spec(fn, SPEC)
     spec = open(os.path.join(HERE, "..", "contracts", "relativize", "spec.rs")).read()
-    info["text"] = ("use vstd::prelude::*;\nverus! {\n" + spec + "\nimpl Relativizer {\n" + CANDIDATE_STANDIN + "\n" + fn + "\n}\n} // verus!\nfn main() {}\n")
-    info["expect_functions"] = ["Relativizer::relativize"]
+    info["text"] = ("use vstd::prelude::*;\nverus! {\n" + spec + "\nimpl Relativizer {\n" + CANDIDATE_STANDIN + "\n" + extra + fn + "\n}\n} // verus!\nfn main() {}\n")
+    info["expect_functions"] = expect
     info["assumptions"] = [
         "BaseIri::resolve (oxiri) implements RFC 3986 5.2: its Ok results are related to (base, reference) by the uninterpreted, functional relation resolves_to",
         "IriRef::new accepts exactly the valid IRI references (regex validator, C09 not claimed)",
